@@ -330,6 +330,12 @@ def replay_path(pid, tag):
     return os.path.join(d, 'replay-%s.json' % tag)
 
 
+def as_list(x):
+    if not x:
+        return []
+    return list(x) if isinstance(x, (list, tuple)) else [x]
+
+
 def python_env():
     env = dict(os.environ)
     env['PYTHONPATH'] = REPO
